@@ -185,6 +185,14 @@ def run(ctx, R, tier):
         R.check(gcfg.guarded(n, lambda e: edge_has_fact(e, exposed_true)), "C02-R2", "_get_attribute|exposed-test#%d" % i,
                 "return is reachable only on the true edge of getattr(x, '_pyroExposed', False)", g.loc(n.ast),
                 "a member that was never exposed can be returned for dispatch")
+    def not_descriptor(atom, pol):
+        return pol is False and isinstance(atom, ast.Call) and dotted(atom.func) == "inspect.isdatadescriptor" and atom.args and \
+            isinstance(atom.args[0], ast.Call) and dotted(atom.args[0].func) == "inspect.getattr_static"
+    dyn_lookup = [n for c, tgs in ctx.cg.calls_of(g) if any(t.kind == "ext" and t.name == "builtins.getattr" for t in tgs) and len(c.args) >= 2
+                  and not isinstance(c.args[1], ast.Constant) for n in ctx.node_of(g, c)]
+    R.check(bool(dyn_lookup) and all(gcfg.guarded(n, lambda e: edge_has_fact(e, not_descriptor)) for n in dyn_lookup), "C02-R2", "_get_attribute|no-getter-before-refusal",
+            "the name is looked up on the object only after a static lookup showed it is not a data descriptor (a property's getter must not run for a request that is refused)", g.loc(),
+            "getattr(obj, name) runs the getter of a property before the exposure test can refuse the request: target code runs for an unexposed member")
     lookups = [c for c, tgs in ctx.cg.calls_of(g) if any(t.kind == "ext" and t.name == "builtins.getattr" for t in tgs)
                and len(c.args) >= 2 and not isinstance(c.args[1], ast.Constant)]
     ok = len(lookups) == 1 and isinstance(lookups[0].args[1], ast.Name) and lookups[0].args[1].id == attr
@@ -249,6 +257,16 @@ def run(ctx, R, tier):
     okc = bool(ckeys) and all(any(isinstance(e, ast.Name) and e.id == m.params[0] for e in n.value.elts) for n in ckeys)
     R.check(okc, "C02-R3", "metadata-cache|keyed-by-class-object", "the per-class metadata cache is keyed by the class object itself", m.loc(ckeys[0]) if ckeys else m.loc(),
             "the cache key `%s` does not contain the class object: two different classes that share a name get each other's advertised member list" % (unparse(ckeys[0].value) if ckeys else "?"))
+    stores_c = [n for n in walk_no_nested(m.node) if isinstance(n, ast.Assign) and isinstance(n.targets[0], ast.Subscript) and "cache" in unparse(n.targets[0].value)]
+    add_nodes = [n for k_ in adds.values() for c in k_ for n in ctx.node_of(m, c)]
+    okp = bool(stores_c) and not any(mcfg.path_exists(mcfg.nodes_for(st), lambda n: n in add_nodes) for st in stores_c)
+    R.check(okp, "C02-R3", "metadata-cache|published-after-filled", "the member sets are stored in the cache only after the scan that fills them", m.loc(stores_c[0]) if stores_c else m.loc(),
+            "the cache entry is published before the scan has filled it: a second client (or a fault mid-scan) gets a truncated member list while the daemon serves everything")
+    pm = ctx.fn("Pyro5.client.Proxy.__processMetadata")
+    pst = [(st, t) for st, t, k in stores_in(pm.node) if k == "assign" and isinstance(t, ast.Attribute) and t.attr in ("_pyroMethods", "_pyroAttrs", "_pyroOneway")]
+    okc2 = len(pst) == 3 and all(isinstance(st.value, ast.Call) and isinstance(st.value.func, ast.Name) and st.value.func.id in ("set", "frozenset") for st, t in pst)
+    R.check(okc2, "C02-R3", "proxy-metadata|copied", "a proxy copies the member sets it is given (Daemon.proxyFor hands it the daemon's cached sets)", pm.loc(),
+            "the proxy keeps the very set objects it was given: mutating a local proxy's _pyroOneway/_pyroMethods changes what the daemon advertises to every later client")
     # carrier order
     orders = {}
     ex = ctx.fn("Pyro5.server.expose")
